@@ -214,25 +214,31 @@ def gen_element_case(rng):
     sp = gen_space(rng)
     ncomp = len(I.flat_spaces(sp))
     fn = rng.choice(["element_of", "elements_of"])
+    basic = "b" in sp
     r = rng.random()
-    n = ncomp if r < 0.6 else max(0, ncomp + rng.choice([-2, -1, 1, 1, 2]))
-    if rng.random() < 0.5 or n == 0:
-        s = gen_names_for(rng, max(n, 1))
-        pat = {"s": s}
+    if basic:
+        n = 1 if (fn == "element_of" and r < 0.75) else rng.choice([1, 2, 3, 4])
+    else:
+        n = ncomp if r < 0.65 else max(0, ncomp + rng.choice([-2, -1, 1, 1, 2]))
+    q = rng.random()
+    if basic and n == 1 and q < 0.7:
+        pat = {"s": rng.choice("uvwpq") + rng.choice(["", "0", "1", "_h", "\\,1", "(1)"])}
+    elif q < 0.5 or n == 0:
+        pat = {"s": gen_names_for(rng, max(n, 1))}
     else:
         kind = rng.choice(["list", "tuple"])
         items = []
         for _ in range(n):
-            q = rng.random()
-            if q < 0.7:
+            z = rng.random()
+            if z < (0.5 if (basic and fn == "elements_of") else 0.8):
                 items.append({"s": rng.choice("uvwpq") + rng.choice(["", "0", "1", "_h"])})
-            elif q < 0.85:
+            elif z < 0.9:
                 items.append({"s": gen_names_for(rng, rng.randint(1, 3))})
             else:
                 items.append({"k": rng.choice(["list", "tuple"]),
                               "items": [{"s": gen_names_for(rng, rng.randint(1, 2))} for _ in range(rng.randint(0, 2))]})
         pat = {"k": kind, "items": items}
-    if rng.random() < 0.1:
+    if rng.random() < 0.08:
         pat = {"s": gen_string(rng, 0.4)}
     return {"t": "element", "fn": fn, "space": sp, "pat": pat}
 
@@ -430,7 +436,7 @@ def python_replay(case):
 def main(run, replay=None):
     rng = run.rng
     quick = run.tier == "quick"
-    n_expand, n_elem = (3000, 700) if quick else (40000, 8000)
+    n_expand, n_elem = (5000, 1500) if quick else (60000, 15000)
     proof_ok = run.coq_props()
 
     cases = []
